@@ -142,7 +142,7 @@ SendRet(s) ==                       \* OBSERVABLE: sendRequest returned res[s]
 CliIdle == cpc = "idle" /\ cops < MaxCliOps
 
 ReadCall ==                         \* OBSERVABLE: the client starts reading the next chunk (prefix, body) of stdin
-  /\ CliIdle
+  /\ CliIdle /\ stdinR
   /\ cpc' = "reading" /\ cops' = cops + 1
   /\ H(<<"R">>)
   /\ UNCHANGED <<pc, idx, res, lock, pending, closedSend, err, terminated, done, wif, stdinR, wof, rpartial, outClosed,
@@ -177,7 +177,8 @@ ReadRet ==                          \* OBSERVABLE: the read returned cret
 \* what the client may write: an answer for a request it has (fully or partly) received, for a
 \* name it never received ("zz"), a repeated answer, garbage, an oversized length, a truncated message
 AnswerNames == Names \cup {"zz"}
-WriteKinds == {"resp"} \cup FaultKinds
+\* "closein" / "waitabort" in FaultKinds switch on two further things a client may do (below); they are not writes
+WriteKinds == {"resp"} \cup (FaultKinds \ {"closein", "waitabort"})
 
 WriteCall(kind, n) ==               \* OBSERVABLE: the client starts writing to stdout
   /\ CliIdle
@@ -197,6 +198,38 @@ WriteRet ==                         \* OBSERVABLE: the write returned: taken by 
   /\ cpc' = IF cop = "trunc" \/ cret' = "aborted" THEN "mustexit" ELSE "idle"
   /\ UNCHANGED <<pc, idx, res, lock, pending, closedSend, err, terminated, done, wif, stdinR, wof, rpartial, outClosed,
                  rpc, rmsg, rerr, seen, cop, cops, inbox, aborted, exitFail, readPh, pipesClosed, pdone,
+                 kpc, wpc, wres, regs, cbs, cblog, hist>>
+
+\* The client closes its own end of stdin and goes on running (a client that has read all it wants):
+\* from then on the runner's writes fail.  The effect is placed at the call marker (nothing of it can be
+\* observed before the call; placing it early only permits more).
+CloseInCall ==                      \* OBSERVABLE
+  /\ CliIdle /\ stdinR /\ "closein" \in FaultKinds
+  /\ cpc' = "closingin" /\ cops' = cops + 1 /\ stdinR' = FALSE
+  /\ H(<<"CI">>)
+  /\ UNCHANGED <<pc, idx, res, lock, pending, closedSend, err, terminated, done, wif, wof, rpartial, outClosed,
+                 rpc, rmsg, rerr, seen, cop, cret, inbox, aborted, exitFail, readPh, pipesClosed, pdone,
+                 kpc, wpc, wres, regs, cbs, cblog>>
+CloseInRet ==                       \* OBSERVABLE
+  /\ cpc = "closingin" /\ cpc' = "idle"
+  /\ UNCHANGED <<pc, idx, res, lock, pending, closedSend, err, terminated, done, wif, stdinR, wof, rpartial, outClosed,
+                 rpc, rmsg, rerr, seen, cop, cret, cops, inbox, aborted, exitFail, readPh, pipesClosed, pdone,
+                 kpc, wpc, wres, regs, cbs, cblog, hist>>
+
+\* After it has written something the runner must reject, the client does not leave by itself: it waits to be
+\* aborted ("the runner reports the client as no longer running" - and takes it down).  Only issued once the
+\* reader has seen the bad message; returns when the process was told to stop.
+WaitAbortCall ==                    \* OBSERVABLE
+  /\ CliIdle /\ "waitabort" \in FaultKinds /\ (aborted \/ rpc = "failing")
+  /\ cpc' = "waitabort" /\ cops' = cops + 1
+  /\ H(<<"B">>)
+  /\ UNCHANGED <<pc, idx, res, lock, pending, closedSend, err, terminated, done, wif, stdinR, wof, rpartial, outClosed,
+                 rpc, rmsg, rerr, seen, cop, cret, inbox, aborted, exitFail, readPh, pipesClosed, pdone,
+                 kpc, wpc, wres, regs, cbs, cblog>>
+WaitAbortRet ==                     \* OBSERVABLE: the client's context was cancelled
+  /\ cpc = "waitabort" /\ aborted /\ cpc' = "mustexit"
+  /\ UNCHANGED <<pc, idx, res, lock, pending, closedSend, err, terminated, done, wif, stdinR, wof, rpartial, outClosed,
+                 rpc, rmsg, rerr, seen, cop, cret, cops, inbox, aborted, exitFail, readPh, pipesClosed, pdone,
                  kpc, wpc, wres, regs, cbs, cblog, hist>>
 
 Exit(fail) ==                       \* OBSERVABLE: the client function is about to return
@@ -337,6 +370,7 @@ Observable == \/ \E s \in Senders : SendCall(s) \/ SendRet(s)
               \/ ReadCall \/ ReadRet
               \/ (\E k \in WriteKinds : \E n \in AnswerNames \cup {"-"} : WriteCall(k, n)) \/ WriteRet
               \/ (\E f \in BOOLEAN : Exit(f))
+              \/ CloseInCall \/ CloseInRet \/ WaitAbortCall \/ WaitAbortRet
               \/ CbStep \/ CloseCall \/ CloseRet \/ WaitCall \/ WaitRet
 
 \* explicit stuttering at the quiescent end so that TLC's deadlock check finds real hangs only
@@ -351,7 +385,7 @@ Fair == /\ \A s \in Senders : WF_vars(SendCall(s)) /\ WF_vars(CheckErr(s)) /\ WF
         /\ WF_vars(ClosePipes) /\ WF_vars(ProcDone)
         /\ WF_vars(Read) /\ WF_vars(Lookup) /\ WF_vars(CbStep) /\ WF_vars(Fail) /\ WF_vars(CloseSendByReader) /\ WF_vars(ReaderDone)
         /\ WF_vars(CloseCall) /\ WF_vars(CloseDo) /\ WF_vars(CloseRet) /\ WF_vars(WaitCall) /\ WF_vars(WaitDone) /\ WF_vars(WaitRet)
-        /\ WF_vars(Exit(FALSE))
+        /\ WF_vars(Exit(FALSE)) /\ WF_vars(CloseInRet) /\ WF_vars(WaitAbortRet)
 Spec == Init /\ [][Next]_vars /\ Fair
 
 (* -------------------------------------------------------------- properties *)
